@@ -55,3 +55,10 @@ Definition f_empty_mc : nsmap := [].
 Definition f_empty_expr : xpath_expr := [(LocationPath false [(LocationStep AxChild (NameMatchTest None [97]%N) [])])].
 Definition f_empty_after : itree := (INode 1%N (PTag [100]%N [114]%N [([0]%N, [], [100]%N)]) [(INode 2%N (PTag [100]%N [97]%N [([0]%N, [], [100]%N)]) []); (INode 3%N (PTag [] [97]%N [([0]%N, [], [100]%N)]) [])]).
 Definition f_empty_pos : npath := [0%nat; 1%nat].
+(* f_vis : a/b on <r><a/></r> under altered_default_filters(is_comment_node) *)
+Definition f_vis_tree : itree := (INode 1%N (PTag [] [114]%N []) [(INode 2%N (PTag [] [97]%N []) [])]).
+Definition f_vis_me : nsmap := [([], [])].
+Definition f_vis_mc : nsmap := [([], [])].
+Definition f_vis_expr : xpath_expr := [(LocationPath false [(LocationStep AxChild (NameMatchTest None [97]%N) []); (LocationStep AxChild (NameMatchTest None [98]%N) [])])].
+Definition f_vis_after : itree := (INode 1%N (PTag [] [114]%N []) [(INode 2%N (PTag [] [97]%N []) []); (INode 3%N (PTag [] [97]%N []) [(INode 4%N (PTag [] [98]%N []) [])])]).
+(* returned node at (0, 1, 0) *)
